@@ -160,8 +160,10 @@ class UCMM( device.Object ):
             return
 
         # A non-empty request. Each EtherNet/IP enip.command expects an appropriate encapsulated response
-        if 'enip' in data:
-            data.enip.pop( 'input', None )
+        # This Object is found in the CIP Object directory, but it only processes EtherNet/IP
+        # encapsulated requests; a CIP request whose path names it fails in whoever routed it here.
+        assert 'enip' in data, "EtherNet/IP encapsulated request required"
+        data.enip.pop( 'input', None )
         try:
             if 'enip.CIP.register' in data:
                 # Allocates a new session_handle, and returns the register.protocol_version and
